@@ -14,11 +14,9 @@
 (*   kind "irrelevant"        Verdict(opts, S) = "same" => every output close12   *)
 (*   kind "control"           nothing demanded (the statement is silent)          *)
 (*   kind "repeat" / "fresh" / "threads"   ida = idb on every component           *)
-(*   kind "reuse"             Relational!Force on the tracked prior space: the    *)
-(*                            object's space before the call is the one the spec  *)
-(*                            tracks, after the call it is the call's space, its  *)
-(*                            linear content is the built one (close9), and the   *)
-(*                            result is the fresh-prior result (close9)           *)
+(*   kind "reuse"             the result is the fresh-prior result (close9); the  *)
+(*                            object's space before the call is the one tracked,  *)
+(*                            after it either Relational!Force's or untouched     *)
 EXTENDS Naturals, Integers, Sequences, FiniteSets, TLC, Json, IOUtils, VT
 
 CONSTANT Kinds       \* the kinds of event this property demands (others are rejected)
@@ -58,15 +56,19 @@ SameOK ==
     /\ (Ev.kind = "threads" => M("threads:discrete_method", Ev.method \in R!Discrete))
     /\ \A x \in IdComps : M(Ev.kind \o ":identical:" \o x, Ev.ida[x] = Ev.idb[x])
 
-(* the prior object as the specification tracks it *)
+(* The prior object as the specification tracks it.  The statement of C09 only    *)
+(* speaks about results; what happens to the user's object is left open, so the   *)
+(* trace accepts both Relational!Force on the object itself (as implemented: the  *)
+(* space follows the last call) and a call that leaves the object as it was.      *)
+(* Which of the two was observed, and whether the linear content was kept, are    *)
+(* reported by the harness as counts.                                             *)
 Tracked == IF Ev.step = 1 \/ sp.tid # Ev.hid THEN "linear" ELSE sp.space
 ReuseOK ==
     LET before == [built |-> TRUE, space |-> Tracked, conv |-> 0]
         after == R!Force(before, Ev.call_space)
     IN  /\ M("reuse:discrete_method", Ev.method \in R!Discrete /\ Ev.call_space \in R!Spaces)
         /\ M("reuse:space_before_is_tracked", Ev.space_before = before.space)
-        /\ M("reuse:space_follows_last_call", Ev.space_after = after.space)
-        /\ M("reuse:prior_content_kept", Ev.data_close)
+        /\ M("reuse:space_after_is_forced_or_untouched", Ev.space_after \in {after.space, before.space})
         /\ IF Ev.discard THEN TRUE      \* maximisation within 1e-9 of an arg-max tie
            ELSE \A q \in Outs : M("reuse:result_is_fresh:" \o q, Ev.c9[q])
 
